@@ -12,6 +12,7 @@ EXTENDS Auth, TLC, Json, SequencesExt
 
 CONSTANTS Bases4, Bases6,    \* address bit strings entries are made from
           PLens4, PLens6,    \* prefix lengths
+          PairLens4, PairLens6,  \* prefix lengths of the entries that are combined into lists of several entries
           MaxEntries,
           CheckAll,          \* TRUE: evaluate the properties for all bit strings of both widths (small widths only)
           EmitCases
@@ -34,8 +35,11 @@ VARIABLES list, last
 vars == <<list, last>>
 
 Init == list = <<>> /\ last = 0
+(* every entry forms a list of its own; lists of several entries are built from the entries with a prefix length in PairLens *)
+Combinable(e) == Blank(e) \/ ~e.cidr \/ e.plen \in (IF e.fam = 4 THEN PairLens4 ELSE PairLens6)
 AddEntry == /\ Len(list) < MaxEntries
             /\ \E k \in (last + 1)..Len(EntrySeq) :
+                  /\ Len(list) >= 1 => (Combinable(EntrySeq[k]) /\ \A i \in 1..Len(list) : Combinable(list[i]))
                   /\ list' = Append(list, EntrySeq[k])
                   /\ last' = k
 Next == AddEntry
